@@ -192,7 +192,12 @@ def special_points(case, edges, root, nodes, want):
             keep = {v: a.copy() for v, a in arrs.items()}
             rl = relabel(case)
             Gn = graph_of(case["name"] + "@" + tag, [[rl(a), rl(b)] for a, b in edges], {**{rl(v_): a for v_, a in arrs.items()}, rl(root): np.array(7.0)})
-            g = call("automated_equation", AutomatedEquation().automated_equation, Gn, 0.4, int(str(root)))
+            try:
+                g = call("automated_equation", AutomatedEquation().automated_equation, Gn, 0.4, int(str(root)))
+            except Violation as v_:
+                if ":TypeError@" in v_.kind or ":ValueError@" in v_.kind:
+                    continue  # array-valued u not accepted (an implementation may insist on real numbers): not applicable
+                raise
             gl = np.atleast_1d(np.asarray(g, dtype=float))
             for j in range(len(gl)):
                 uj = {v: float(np.atleast_1d(keep[v])[j if keep[v].ndim else 0]) for v in others}
